@@ -9,10 +9,41 @@ import (
 	"errors"
 	"fmt"
 	"reflect"
+	"runtime/debug"
+	"strings"
 	"unsafe"
 
 	"cvcase/ext"
 )
+
+// semPanicOrigin: base name of the source file of the frame in which the recovered panic was raised
+// (the first non-runtime frame below the panic call), read from the stack of the recovering goroutine.
+func semPanicOrigin() string {
+	lines := strings.Split(string(debug.Stack()), "\n")
+	seenPanic := false
+	for i := 0; i+1 < len(lines); i++ {
+		l := lines[i]
+		if strings.HasPrefix(l, "panic(") {
+			seenPanic = true
+			continue
+		}
+		if !seenPanic || strings.HasPrefix(l, "\t") {
+			continue
+		}
+		if strings.HasPrefix(l, "runtime.") || strings.HasPrefix(l, "runtime/") {
+			continue
+		}
+		file := strings.TrimSpace(lines[i+1])
+		if j := strings.LastIndexByte(file, ':'); j > 0 {
+			file = file[:j]
+		}
+		if j := strings.LastIndexByte(file, '/'); j >= 0 {
+			file = file[j+1:]
+		}
+		return file
+	}
+	return ""
+}
 
 var _ = errors.New
 var _ = ext.NewPerson
